@@ -41,7 +41,7 @@ from pathlib import Path
 from bounded.common import JOBS, Budget, bitem, chunked, pmap
 
 PROP = 'C18'
-KINDS = ('val', 'key', 'typ')  # raising payload i uses KINDS[i % 3]
+KINDS = ('val', 'key', 'typ', 'int')  # raising payload i uses KINDS[i % 4]; 'int': InterruptedError, an ordinary OSError a function may raise
 
 
 # ------------------------------------------------------------------------------------------------
@@ -84,6 +84,10 @@ def work(p, *args, **kwargs):
         raise TypeError(f'bad {p.key}')
     if p.mode == 'rec':
         raise RecursionError('maximum recursion depth exceeded')
+    if p.mode == 'int':
+        raise InterruptedError(4, f'eintr {p.key}')
+    if p.mode == 'kbi':
+        raise KeyboardInterrupt()
     raise AssertionError(p.mode)
 
 
@@ -92,7 +96,7 @@ def expected(p):
     if p.mode == 'ok':
         return (p.key, ('out', p.key * 7 + 1), None, None)
     name, args = {'val': ('ValueError', (f'boom {p.key}',)), 'key': ('KeyError', (p.key,)),
-                  'typ': ('TypeError', (f'bad {p.key}',)),
+                  'typ': ('TypeError', (f'bad {p.key}',)), 'int': ('InterruptedError', (4, f'eintr {p.key}')),
                   'rec': ('RecursionError', ('maximum recursion depth exceeded',))}[p.mode]
     return (p.key, None, name, args)
 
@@ -104,7 +108,7 @@ def canon(r):
 
 
 def payloads_for(n, mask, delays=None):
-    return [Pay(i, KINDS[i % 3] if (mask >> i) & 1 else 'ok', (delays[i] if delays else 0.0)) for i in range(n)]
+    return [Pay(i, KINDS[i % 4] if (mask >> i) & 1 else 'ok', (delays[i] if delays else 0.0)) for i in range(n)]
 
 
 # ------------------------------------------------------------------------------------------------
@@ -665,6 +669,13 @@ def public_api_item(tier, seed):
         for _ in range(14):
             n = rng.randint(2, 7)
             plan.append((n, rng.getrandbits(n), True, rng.randint(1, 3)))
+    # a run that the user interrupts (KeyboardInterrupt out of the function, the caller survives it) must not affect the next run
+    try:
+        list(parproc(work, [Pay(0), Pay(1, 'kbi'), Pay(2)], parallel=False))
+        fails.append(dict(cls='keyboard-interrupt-swallowed', detail='KeyboardInterrupt raised by the function did not reach the caller',
+                          witness=dict(api='parproc', payloads=3, parallel=False)))
+    except KeyboardInterrupt:
+        pass
     for n, mask, parallel, k in plan:
         pays = payloads_for(n, mask, [rng.choice((0.0, 0.001, 0.003)) for _ in range(n)] if k else None)
         out, err = [], None
@@ -678,7 +689,7 @@ def public_api_item(tier, seed):
                                                                     parallel=parallel, max_workers=k)))
         samples.append(dict(payloads=n, parallel=parallel, max_workers=k, yielded=[canon(r)[0] for r in out]))
     return bitem(PROP, 'public-parproc', function='tatsu/parproc/parproc.py:parproc (public API)',
-                 domain='0 and 1 payload shortcuts, sequential mode on 3..4 payloads with raising subsets'
+                 domain='after a run interrupted by KeyboardInterrupt in the same process: 0 and 1 payload shortcuts, sequential mode on 3..4 payloads with raising subsets'
                         + ('' if tier == 'quick' else '; 14 random runs with the real ProcessPoolExecutor (2..7 payloads, 1..3 workers)'),
                  bound=f'{len(plan)} calls (each starts a multiprocessing.Manager)', cases=cases, distinct_nontrivial=max(0, cases - 3),
                  rule='one case per call; 0/1-payload calls counted trivial', exhaustive=False, samples=samples, failures=fails,
